@@ -148,7 +148,7 @@ def strata_search(ctx, n):
         est = str(rng.choice(["matheron", "cressie"]))
         e = est[0]
         bins = np.concatenate([[float(rng.choice([0.25, 0.5]))], np.cumsum(rng.choice([1.0, 1.5, 2.5], size=int(rng.randint(2, 5)))) + 0.5])
-        if t % 2 == 0:   # ---- (A)
+        if t % 3 == 0:   # ---- (A)
             tol = float(rng.choice([np.pi / 8, np.pi / 6, 0.2, np.pi / 4]))
             D = int(rng.randint(2, 4))
             u = rng.randn(dim); u /= np.linalg.norm(u)
@@ -180,6 +180,40 @@ def strata_search(ctx, n):
                                      "case": case, "got": [g.tolist(), c.tolist()], "want": [rg.tolist(), rc.tolist()]})
             except Exception as ex:
                 viol.append({"key": "api:directional:exception", "what": f"{type(ex).__name__}: {ex}", "case": case})
+        elif t % 3 == 2:   # ---- (C) directions given as ISO 80000-2 angles (`angles=`), several at once, full azimuth range
+            ndir = int(rng.randint(1, 4))
+            tol = float(rng.choice([np.pi / 8, np.pi / 6, 0.3]))
+            if dim == 2:
+                az = rng.uniform(-2 * np.pi, 2 * np.pi, size=ndir)
+                ang = az if rng.rand() < 0.5 else az.reshape(-1, 1)
+                dn = np.stack([np.cos(az), np.sin(az)], axis=1)
+            else:
+                az = rng.uniform(-2 * np.pi, 2 * np.pi, size=ndir)
+                inc = rng.uniform(0.15, np.pi - 0.15, size=ndir)
+                if rng.rand() < 0.25:
+                    inc[int(rng.randint(ndir))] = np.pi / 2          # a horizontal direction among inclined ones
+                ang = np.stack([az, inc], axis=1)
+                dn = np.stack([np.sin(inc) * np.cos(az), np.sin(inc) * np.sin(az), np.cos(inc)], axis=1)
+            f = rng.randint(-8, 9, size=(1, P)) / 4.0
+            case = dict(stratum="iso-angles", pos=pos.tolist(), field=f.tolist(), bins=bins.tolist(), estimator=est,
+                        angles=np.asarray(ang).tolist(), angles_tol=tol)
+            try:
+                _, g, c = gs.vario_estimate(pos, f[0], bins, estimator=est, angles=ang, angles_tol=tol, return_counts=True)
+                g, c = np.atleast_2d(g), np.atleast_2d(c)
+                rg, rc = brute.directional(f, bins, pos, dn, tol, -1.0, e)
+                ev += 1
+                if not (close(g, rg) and np.array_equal(c, rc)):
+                    zg, zc = brute.directional(f, bins, pos, dn, tol, -1.0, e, zero_first_only=True)
+                    if close(g, zg) and np.array_equal(c, zc):
+                        viol.append({"key": "api:directional:zero-length-pairs-first-direction-only",
+                                     "what": "zero-length pairs credited to the first separated direction only", "case": case})
+                    else:
+                        viol.append({"key": "api:directional:iso-angles",
+                                     "what": "vario_estimate(angles=...) differs from pair enumeration along the ISO 80000-2 direction vectors "
+                                             "(2-D: (cos az, sin az); 3-D: (sin inc cos az, sin inc sin az, cos inc))",
+                                     "case": case, "got": [g.tolist(), c.tolist()], "want": [rg.tolist(), rc.tolist()]})
+            except Exception as ex:
+                viol.append({"key": "api:directional:iso-angles:exception", "what": f"{type(ex).__name__}: {ex}", "case": case})
         else:            # ---- (B)
             F = int(rng.randint(2, 4))
             data = rng.randint(-8, 9, size=(F, P)) / 4.0
@@ -279,9 +313,9 @@ def search(ctx, deep=False):
     n = ctx.scale(60, 600) * (3 if deep else 1)
     ev0, v0 = directed(ctx)
     ev1, v1 = api_search(ctx, n)
-    ev3, v3 = strata_search(ctx, max(24, n // 2))
+    ev3, v3 = strata_search(ctx, max(36, n // 2))
     ev1, v1 = ev0 + ev1 + ev3, v0 + v3 + v1
     ev2, v2 = model_search(ctx, max(10, n // 4))
     return {"evaluations": ev1 + ev2, "violations": (v1 + v2)[:8],
-            "summary": f"{ev1} calls of vario_estimate / vario_estimate_axis (incl. {ev3} in the targeted strata: overlapping direction cones with random signs, "
+            "summary": f"{ev1} calls of vario_estimate / vario_estimate_axis (incl. {ev3} in the targeted strata: overlapping direction cones with random signs, directions given as ISO angles incl. several 3-D directions at once, "
                        f"stacks of masked fields with different masks) and {ev2} runs of the Lean translation of estimator.pyx against brute-force pair enumeration"}
